@@ -114,22 +114,6 @@ func VerifH_entry() {
 	}
 }
 
-func vfParseTrailerBlock(b []byte) map[string]string {
-	out := map[string]string{}
-	for _, line := range strings.Split(string(b), "\r\n") {
-		if line == "" {
-			continue
-		}
-		k, v, ok := strings.Cut(line, ": ")
-		if !ok {
-			out["<malformed>"] = line
-			continue
-		}
-		out[k] = v
-	}
-	return out
-}
-
 // VerifH_grpcweb (C05, C06, C14): a unary gRPC-web call (binary and base64 text mode, over
 // HTTP/1.1 and HTTP/2): the call reaches the handler, and decoding everything the client received
 // yields the reply frame (if any) followed by one well-formed trailer frame with grpc-status,
